@@ -230,6 +230,13 @@ func (g *functionGenerator) getValue(i ssa.Value) valueWrap {
 					val := constant.StringVal(v.Value)
 					return valueWrap{value: wir.NewConst(val, g.tLib.compile(t))}
 
+				case types.Complex64, types.Complex128:
+					re, _ := constant.Float64Val(constant.Real(v.Value))
+					im, _ := constant.Float64Val(constant.Imag(v.Value))
+					res := strconv.FormatFloat(re, 'f', -1, 64)
+					ims := strconv.FormatFloat(im, 'f', -1, 64)
+					return valueWrap{value: wir.NewConst(res+" "+ims, g.tLib.compile(t))}
+
 				default:
 					logger.Fatalf("Todo:%T %v", t, t.Underlying().(*types.Basic).Kind())
 				}
